@@ -118,6 +118,32 @@ Definition scalar_payload (k : Z) (e : ev) : sres :=
   | _ => SErr
   end.
 
+(* strconv.ParseInt(key, 10, bits) with the error dropped: the clamped value on range errors, 0 on syntax errors *)
+Definition go_parse_int (s : list Z) (bits : Z) : Z :=
+  let body := match s with c :: r => if (c =? 43) || (c =? 45) then r else s | [] => s end in
+  let neg := match s with c :: _ => c =? 45 | [] => false end in
+  match body with
+  | [] => 0
+  | _ =>
+    if forallb is_digit body then
+      let a := digits_val body 0 in
+      let z := if neg then - a else a in
+      if z <? - 2 ^ (bits - 1) then - 2 ^ (bits - 1) else if 2 ^ (bits - 1) <=? z then 2 ^ (bits - 1) - 1 else z
+    else 0
+  end.
+Definition go_parse_bool (s : list Z) : bool :=
+  existsb (bytes_eqb s) [[49]; [116]; [84]; [84; 82; 85; 69]; lit_true; [84; 114; 117; 101]].
+
+Definition encode_map_key (buf : list Z) (key : list Z) (kk : Z) : option (list Z) :=
+  if kk =? 5 then Some (buf ++ varint_enc (go_parse_int key 32 mod 2 ^ 64))
+  else if kk =? 13 then Some (buf ++ varint_enc (go_parse_int key 32 mod 2 ^ 32))
+  else if kk =? 4 then Some (buf ++ varint_enc (go_parse_int key 64 mod 2 ^ 64))
+  else if kk =? 3 then Some (buf ++ varint_enc (go_parse_int key 64 mod 2 ^ 64))
+  else if kk =? 8 then Some (buf ++ [if go_parse_bool key then 1 else 0])
+  else if kk =? 9 then (if utf8_valid key then Some (buf ++ lenpref key) else None)
+  else None.
+
+
 (* ================================================================= (a) spec level *)
 (* Kind2Wire[kind] & 7 (a Go map lookup: 0 for a kind that is not in the table) *)
 Definition kwire (k : Z) : Z := let w := wt_of_kind k in if w <? 0 then 0 else w.
@@ -205,18 +231,23 @@ Section Denote.
     end.
 
   (* map key from the member name; supported key kinds: int32 int64 uint32 uint64 bool string *)
-  Definition denote_key (kk : Z) (s : list Z) : res mkey :=
+  Definition denote_key0 (kk : Z) (s : list Z) : res mkey :=
     if kk =? 9 then (if utf8_valid s && jbytes_okb s then ROk (KStr s) else RUndef)
     else if kk =? 8 then
       (if bytes_eqb s lit_true then ROk (KInt 8 1) else if bytes_eqb s lit_false then ROk (KInt 8 0) else RUndef)
     else if (kk =? 5) || (kk =? 3) || (kk =? 13) || (kk =? 4) then
       match parse_int s with
-      | Some z =>
-        if bytes_eqb (fmt_int z) s && scalar_okb kk z && (negb strict || in_sb (if (kk =? 5) || (kk =? 13) then 32 else 64) z)
-        then ROk (KInt kk z) else RUndef
+      | Some z => if bytes_eqb (fmt_int z) s && scalar_okb kk z then ROk (KInt kk z) else RUndef
       | None => RUndef
       end
     else RUndef.
+  (* strict: what encodeMapKey writes is the wire form of the key (fails for uint32 >= 2^31, uint64 >= 2^63: finding 903) *)
+  Definition key_agrees (kk : Z) (s : list Z) (key : mkey) : bool :=
+    negb strict ||
+    (match encode_map_key [] s kk with Some b => bytes_eqb b (wenc_val (snd (key_field key))) | None => false end
+     && (wt_of_wval (snd (key_field key)) =? kwire kk)).
+  Definition denote_key (kk : Z) (s : list Z) : res mkey :=
+    res_bind (denote_key0 kk s) (fun key => if key_agrees kk s key then ROk key else RUndef).
 
   Definition has_known (md : mdesc) (ms : list (list Z * json)) : bool :=
     existsb (fun m => match find_field_name md (fst m) with Some _ => true | None => false end) ms.
@@ -513,31 +544,6 @@ Section Machine.
       end
     end.
 
-  (* strconv.ParseInt(key, 10, bits) with the error dropped: the clamped value on range errors, 0 on syntax errors *)
-  Definition go_parse_int (s : list Z) (bits : Z) : Z :=
-    let body := match s with c :: r => if (c =? 43) || (c =? 45) then r else s | [] => s end in
-    let neg := match s with c :: _ => c =? 45 | [] => false end in
-    match body with
-    | [] => 0
-    | _ =>
-      if forallb is_digit body then
-        let a := digits_val body 0 in
-        let z := if neg then - a else a in
-        if z <? - 2 ^ (bits - 1) then - 2 ^ (bits - 1) else if 2 ^ (bits - 1) <=? z then 2 ^ (bits - 1) - 1 else z
-      else 0
-    end.
-  Definition go_parse_bool (s : list Z) : bool :=
-    existsb (bytes_eqb s) [[49]; [116]; [84]; [84; 82; 85; 69]; lit_true; [84; 114; 117; 101]].
-
-  Definition encode_map_key (buf : list Z) (key : list Z) (kk : Z) : option (list Z) :=
-    if kk =? 5 then Some (buf ++ varint_enc (go_parse_int key 32 mod 2 ^ 64))
-    else if kk =? 13 then Some (buf ++ varint_enc (go_parse_int key 32 mod 2 ^ 32))
-    else if kk =? 4 then Some (buf ++ varint_enc (go_parse_int key 64 mod 2 ^ 64))
-    else if kk =? 3 then Some (buf ++ varint_enc (go_parse_int key 64 mod 2 ^ 64))
-    else if kk =? 8 then Some (buf ++ [if go_parse_bool key then 1 else 0])
-    else if kk =? 9 then (if utf8_valid key then Some (buf ++ lenpref key) else None)
-    else None.
-
   Definition lookup_member (md : mdesc) (key : list Z) (st : mstate) : mres :=
     match find_field_name md key with
     | Some fd => MOk (set_glob st (Some (GField fd)))
@@ -684,6 +690,6 @@ Definition junk0 : list Z := [0;0;0;0;0;0;0;0;0].
 Definition j2p_machine (disallow : bool) (S : schema) (root : list Z) (j : json) : outcome :=
   sax_run disallow S root junk0 (events j).
 
-(* schemas without map fields (domain of the partial refinement theorem) *)
+(* schemas without map fields (every nesting level costs one stack frame: depth 256 instead of 128) *)
 Definition nomap_schema (S : schema) : bool :=
   forallb (fun md => forallb (fun fd => match fd_label fd with LMap _ => false | _ => true end) (md_fields md)) S.
